@@ -76,6 +76,22 @@ def ceWrite (c : Core) (after : Bool) : List DEv :=
     ++ (if (sinks.filter (·.writeErr)).isEmpty then [] else [DEv.errLine])
     ++ (if after then [DEv.term] else [])
 
+mutual
+/-- the sinks that `ioCore.Write` has SYNCED when an entry above ErrorLevel was written through the core: an io core
+    syncs (all of) its sinks after the write exactly when the (multi-)write returned no error — a short COUNT without an
+    error is not an error (`multiWriteSyncer.Write` reports counts as they are) -/
+def syncedOf : Core → List Nat
+  | .io _ sinks => if sinks.all (fun s => !s.writeErr) then sinks.map (·.id) else []
+  | .tee cs => syncedOfL cs
+  | .wrap c => syncedOf c
+def syncedOfL : List Core → List Nat
+  | [] => []
+  | c :: r => syncedOf c ++ syncedOfL r
+end
+
+/-- sinks synced when the terminal hook runs (levels DPanic, Panic, Fatal are all above ErrorLevel) -/
+def syncedAtTerminal (c : Core) : List Nat := (accepted c).flatMap syncedOf
+
 /-! ### zap.Stringers -/
 
 /-- elements appended before the first element whose `String()` panics with a non-nil receiver, and the error
